@@ -161,6 +161,14 @@ func c15InviteCheck(ctx *vfCtx, c c15InviteCase) {
 		ctx.Class("all-guards-hold")
 	}
 	ctx.Class(fmt.Sprintf("known=%v/existing=%s", c.Known, c.Existing))
+	switch c15Domain(sender) {
+	case c15Domain(c.Invited):
+		ctx.Class(fmt.Sprintf("sender-server/local(=invited user's)/validly-signed=%v", gSigned))
+	case c15Remote:
+		ctx.Class(fmt.Sprintf("sender-server/remote/validly-signed=%v", gSigned))
+	default:
+		ctx.Class(fmt.Sprintf("sender-server/other/validly-signed=%v", gSigned))
+	}
 	for _, f := range c.Faults {
 		ctx.Class("gen/" + f)
 	}
@@ -227,10 +235,21 @@ func c15InviteGen(t *rapid.T) c15InviteCase {
 	c.ReqRoom = room
 	c.Invited = rapid.SampledFrom([]string{c15Lara, c15Leo}).Draw(t, "invited")
 	c.Known, c.KnownErr, c.Existing, c.ExistingErr, c.Stripped, c.StateMode = c15GenInviteEnv(t, &c.Faults)
-	typ, membership, sender := "m.room.member", "invite", c15Rita
+	// the inviting user's server: the usual remote, another remote, or the LOCAL (= invited user's) server;
+	// in the last case the handler's own counter-signature must not be able to stand in for the sender's
+	localSender := c15Creator
+	if c.Invited == c15Lara && rapid.Bool().Draw(t, "localSenderWho") {
+		localSender = c15Leo
+	}
+	typ, membership := "m.room.member", "invite"
+	sender := rapid.SampledFrom([]string{c15Rita, c15Rita, c15Otto, localSender, localSender}).Draw(t, "sender")
 	stateKey := raSK(c.Invited)
 	evRoom := room
 	sigFault := ""
+	if sender != c15Rita && rapid.IntRange(0, 2).Draw(t, "senderSigFaulty") > 0 {
+		sigFault = rapid.SampledFrom(c15SigFaults).Draw(t, "senderSigFault")
+		c.Faults = append(c.Faults, "sig")
+	}
 	nf := rapid.SampledFrom([]int{0, 0, 1, 1, 1, 1, 2}).Draw(t, "nFaults")
 	for i := 0; i < nf; i++ {
 		f := rapid.SampledFrom([]string{"type", "type", "membership", "state-key", "room", "sig", "sig", "sender-malformed", "joined", "querier", "no-state"}).Draw(t, "fault")
